@@ -41,7 +41,7 @@ def cases(c):
                                        base + int(rng.integers(0, 30))]))
             out.append({'cls': cls, 'p': params, 'N': N, 'NFFT1': NFFT1, 'factor': int(gen.pick(rng, [2, 3, 5])),
                         'cplx': int(rng.integers(0, 2)), 'kind': gen.pick(rng, ['noise', 'tones', 'ar', 'trend']),
-                        'fs': gen.pick(rng, [1.0, 2.0, 100.0]), 'j': j})
+                        'fs': gen.pick(rng, [1.0, 2.0, 100.0]), 'reuse': ((j // 3) % 4) if j % 3 == 1 else None, 'j': j})
     # hostile for the adaptive multitaper: large dynamic range (finding F23 lives here)
     for j, (N, n1, fac, cplx) in enumerate([(64, 65, 2, 0), (64, 64, 3, 1), (48, 50, 2, 0), (40, 41, 5, 1),
                                             (64, 65, 2, 0), (64, 65, 2, 0), (64, 65, 2, 0), (64, 64, 3, 1)]):
@@ -88,7 +88,10 @@ def run_case(c, d):
     log = []
     for role, nf in (('NFFT1', n1), ('NFFT2', n2)):
         try:
-            p = E.build(cls, d['p'], x, NFFT=nf, fs=d['fs'], scale=False)
+            if d.get('reuse') is not None and role == 'NFFT2':
+                p = E.build_reused(cls, d['p'], x, NFFT=nf, fs=d['fs'], scale=False, salt=d['reuse'])
+            else:
+                p = E.build(cls, d['p'], x, NFFT=nf, fs=d['fs'], scale=False)
             psd = np.asarray(p.psd)
             log.append({'role': role, 'psd': psd, 'exposed': E.exposed(p), 'freqs': np.asarray(p.frequencies()),
                         'error': None})
